@@ -14,13 +14,13 @@ CHECK = {
     "tests": [
         T("isolation", "TestC12IdleInvokerSchedules",
           {"checks": 30000, "shards": 2, "timeout": 300},
-          {"checks": 400000, "shards": 4, "timeout": 1500}),
+          {"checks": 250000, "shards": 4, "timeout": 1500}),
         T("isolation", "TestC12BuildDirectoryCreators",
           {"checks": 2000, "shards": 4, "timeout": 300},
-          {"checks": 25000, "shards": 8, "timeout": 1500}),
+          {"checks": 15000, "shards": 8, "timeout": 1500}),
         T("isolation", "TestC12CleanRunner",
           {"checks": 30000, "shards": 2, "timeout": 300},
-          {"checks": 400000, "shards": 4, "timeout": 1500}),
+          {"checks": 250000, "shards": 4, "timeout": 1500}),
     ],
 }
 META = {
